@@ -301,6 +301,9 @@ def k_stdrenyi(ctx, rows, cols, features, base=2.0):
     import pyrepseq as prs
     vals = _vals(rows, cols, features)
     counts = list(collections.Counter(vals).values())
+    if sum(counts) < 4:
+        ctx.count("stdrenyi_too_few_rows")
+        return          # the variance estimator needs N >= 4
     p = O.U2(counts)
     var = p * p - O.U22(counts)
     ctx.count("stdrenyi_cases")
